@@ -8,7 +8,8 @@ namespace Flatland.Tree
 open Flatland.PyList
 
 /-- identity, stored parent, class and key of a node -/
-def Node.hdr (n : Node) : Nat × Option Nat × Schema × Str := (n.id, n.parent, n.sch, n.key)
+def Node.hdr (n : Node) : Nat × Option Nat × Schema × Str × Option Bool × Option Str :=
+  (n.id, n.parent, n.sch, n.key, n.ni.optOv, n.ni.nameOv)
 
 theorem dictPrep_error_hdr (i : NInfo) (s : Schema) (kvs pol next) (r : SetR) (kids : List Node)
     (h : dictPrep i s kvs pol next = .error r) : r.node.hdr = (Node.mk i s kids).hdr := by
@@ -87,7 +88,7 @@ theorem setNode_hdr (n : Node) (raw : Raw) (pol : Option Policy) (next : Nat) :
       all_goals rfl
 
 theorem blank_hdr (s : Schema) (parent : Option Nat) (key : Str) (next : Nat) :
-    (blank s parent key next).1.hdr = (next, parent, s, key) := by
+    (blank s parent key next).1.hdr = (next, parent, s, key, none, none) := by
   cases s with
   | mk info dflt subs =>
     unfold blank
@@ -97,7 +98,7 @@ theorem blank_hdr (s : Schema) (parent : Option Nat) (key : Str) (next : Nat) :
     · rfl
 
 theorem construct_hdr (s : Schema) (raw : Raw) (parent : Option Nat) (key : Str) (next : Nat) (e : Node)
-    (h : (construct s raw parent key next).1 = .ok e) : e.hdr = (next, parent, s, key) := by
+    (h : (construct s raw parent key next).1 = .ok e) : e.hdr = (next, parent, s, key, none, none) := by
   unfold construct at h
   dsimp only at h
   split at h
@@ -106,7 +107,7 @@ theorem construct_hdr (s : Schema) (raw : Raw) (parent : Option Nat) (key : Str)
   · cases h
 
 theorem fromDefaults_hdr (s : Schema) (parent : Option Nat) (key : Str) (next : Nat) :
-    (fromDefaults s parent key next).node.hdr = (next, parent, s, key) := by
+    (fromDefaults s parent key next).node.hdr = (next, parent, s, key, none, none) := by
   cases s with
   | mk info dflt subs =>
     have hb := blank_hdr (.mk info dflt subs) parent key next
@@ -198,6 +199,17 @@ theorem extendArgs_hdr (m : Schema) (n : Node) (as : List Arg) (next : Nat) :
     · rfl
     · rw [ih, appendEl_hdr]
 
+theorem imulLoop_hdr (m : Schema) (vals : List Arg) (k : Nat) (n : Node) (next : Nat) :
+    (imulLoop m vals k n next).1.hdr = n.hdr := by
+  induction k generalizing n next with
+  | zero => rfl
+  | succ k ih =>
+    rw [imulLoop]
+    have he := extendArgs_hdr m n vals next
+    split
+    · rename_i h; rw [h] at he; exact he
+    · rename_i h; rw [h] at he; rw [ih]; exact he
+
 /-- a list-protocol call never changes the identity, stored parent, class or key of the
     sequence it is called on -/
 theorem seqStep_hdr (n : Node) (op : SeqOp) (next : Nat) : (seqStep n op next).node.hdr = n.hdr := by
@@ -236,6 +248,12 @@ theorem seqStep_hdr (n : Node) (op : SeqOp) (next : Nat) : (seqStep n op next).n
     | pop i => dsimp only; split <;> first | rfl | (split <;> rfl)
     | remove a => dsimp only; split <;> first | rfl | (split <;> rfl)
     | reverse => rfl
+    | clear => rfl
+    | imul c =>
+      dsimp only
+      split
+      · rfl
+      · split <;> exact imulLoop_hdr _ _ _ _ _
     | sort k r => dsimp only; split <;> first | (split <;> rfl) | rfl
     | set r => dsimp only; split <;> exact setNode_hdr _ _ _ _
     | setDefault => dsimp only; split <;> exact setDefault_hdr _ _
